@@ -139,5 +139,6 @@ func main() {
 		os.MkdirAll(*out, 0o755)
 		genConsts(p, *out)
 		genSkel(p, *out)
+		genApi(p, *out)
 	}
 }
